@@ -138,6 +138,25 @@ Proof.
   intros. unfold login_raw, decode_raw, login. rewrite parse_ser by assumption. now rewrite existsb_false.
 Qed.
 
+Lemma accept_iff_raw :
+  forall (HX : algo -> bytes -> bytes) (b64enc : bytes -> bytes) (b64dec : bytes -> option bytes),
+  (forall a x y, HX a x = HX a y -> x = y) -> (forall a x, ~ In dash (HX a x)) ->
+  (forall x, b64dec (b64enc x) = Some x) -> (forall x, ~ In dash (b64enc x)) ->
+  forall priv realm fs u n0 ip0 t0 method pw r,
+  Forall wf_field fs -> ascii_keys fs ->
+  ~ In comma n0 -> ~ In comma ip0 ->
+  get k_username fs = Some u -> u <> [] ->
+  get k_nonce fs = Some n0 -> get k_opaque fs = Some (gen_opaque HX b64enc priv n0 ip0 t0) ->
+  expected_response HX realm u method fs pw = Some r -> get k_response fs = Some r ->
+  forall now host pw',
+    login_raw HX b64dec priv realm now (ser fs) method host pw' = Some true <->
+    (host = ip0 /\ (Z.of_N now - Z.of_N t0 <= lifetime)%Z /\ pw' = pw).
+Proof.
+  intros HX b64enc b64dec H1 H2 H3 H4 priv realm fs u n0 ip0 t0 method pw r Hwf Hasc Hn0 Hi0 Hu Hne Hn Ho He Hr now host pw'.
+  rewrite login_raw_ser by assumption.
+  exact (accept_iff HX b64enc b64dec H1 H2 H3 H4 priv realm fs u n0 ip0 t0 method pw r Hn0 Hi0 Hu Hne Hn Ho He Hr now host pw').
+Qed.
+
 (** a field name that is not ASCII is an ordinary login failure (used to be UnicodeDecodeError) *)
 Lemma non_ascii_key_fails : forall HX b64dec priv now raw host,
   existsb (fun kv => non_ascii (fst kv)) (parse_fields raw) = true ->
